@@ -529,4 +529,60 @@ def r7_queue_invariants(a, tier):
     return rep
 
 
-RULES = [r1_mirror, r2_codecs, r3_reader, r4_exception_sets, r5_file_lifecycle, r6_checksum, r7_queue_invariants]
+def r8_rle_roundtrip(a, tier):
+    import itertools
+    import re as _re
+
+    from ..minieval import Raised, Unsupported
+    from ..modelinterp import Hook, ModelInterp
+    n = 6 if tier == 'thorough' else 4
+    rep = RuleReport(
+        'C19.R8',
+        f'the run-length layer is lossless, exhaustively over the characters the encoding itself uses: rle_encode and rle_decode, interpreted '
+        f'(their regular expressions run by the re module), satisfy rle_decode(rle_encode(s)) == s for EVERY string over {{~, a, 1}} up to length {n} '
+        'and for runs of 4..12 equal characters placed next to tildes, digits and marker-like text',
+        floor=100,
+    )
+    enc, dec = a.p.func('tatsu.packetz.compact.rle_encode'), a.p.func('tatsu.packetz.compact.rle_decode')
+
+    from ..minieval import module_constants
+    consts = dict(module_constants(a.p.module('tatsu.packetz.compact')))
+
+    def interp():
+        it = ModelInterp(a, {**consts, 're': Hook(None, compile=Hook(_re.compile), sub=Hook(lambda p_, r_, s_: _re.sub(p_, it.as_callable(r_) if not isinstance(r_, str) else r_, s_)),
+                                        Match=_re.Match, Pattern=_re.Pattern), 'len': Hook(len), 'int': Hook(int)})
+
+        def methods(recv, name, args, kwargs):
+            if isinstance(recv, _re.Pattern) and name == 'sub':
+                repl = args[0] if isinstance(args[0], str) else it.as_callable(args[0])
+                return recv.sub(repl, *args[1:])
+            if isinstance(recv, _re.Pattern) and name in ('match', 'search', 'fullmatch', 'findall'):
+                return getattr(recv, name)(*args)
+            if isinstance(recv, _re.Match) and name in ('group', 'groups', 'start', 'end'):
+                return getattr(recv, name)(*args)
+            return NotImplemented
+        it.methods = methods
+        return it
+    texts = [''.join(t) for k in range(0, n + 1) for t in itertools.product('~a1', repeat=k)]
+    for r in (4, 5, 9, 10, 12):
+        for ch in 'a1':
+            texts += [ch * r, '~' + ch * r, ch * r + '~', '~~' + ch * r + '1', ch * r + '4~', f'~{ch}{r}~', ch * r + ch.upper() * r]
+    n_bad = 0
+    for t in texts:
+        try:
+            e = interp().call_fn(enc, [t])
+            d = interp().call_fn(dec, [e])
+        except Unsupported as ex:
+            raise AnalysisError(f'C19.R8: cannot interpret the run-length codec on {t!r}: {ex}') from ex
+        except Raised as ex:
+            e, d = f'<raises {ex.cls_name}>', None
+        ok = d == t
+        rep.add({'text': t, 'encoded': e, 'decoded': d, 'ok': ok})
+        if not ok and n_bad < 6:
+            n_bad += 1
+            rep.fail(enc.qualname, f'rle:{t!r}', f'rle_decode(rle_encode({t!r})) = {d!r} (encoded as {e!r}): a payload string with the characters of the encoding itself comes back '
+                     f'changed', enc.loc)
+    return rep
+
+
+RULES = [r1_mirror, r2_codecs, r3_reader, r4_exception_sets, r5_file_lifecycle, r6_checksum, r7_queue_invariants, r8_rle_roundtrip]
